@@ -1,5 +1,6 @@
 import Pm.IsolationProof
 import Pm.TwoRunEx
+import Pm.RunXTwoEx
 /-! # C11 — clients are isolated from one another
 
 *"Replies, status results, telemetry and diagnostics produced for one client's request are delivered to that client only,
@@ -29,7 +30,9 @@ Vocabulary:
 
 Ranking (DESIGN §6): routing (done, both halves) ▸ departure (done) ▸ one command (done) ▸ result scope (done, with the
 hypothesis `k.al ≠ 0`, see the finding in `Props/C05`) ▸ ids (done for `Nat` ids; the C counter wraps) ▸ back-pressure (§6 the
-single-run frame; §7 the two-run statement `C11_backpressure`; §8 a client that vanishes). -/
+single-run frame; §7 the two-run statement `C11_backpressure`; §8 a client that vanishes; §9 the run theorems of §2, §7, §8 over
+`runX` — runs in which every pass brings its own answers of the regex engine; the statements of §2, §7, §8 over `runPasses`
+are the special case of passes that bring none, in which only the first pass of a run can see a match). -/
 namespace Pm.Props.C11
 open Pm Pm.Client Pm.Daemon Pm.Daemon.Isolation
 open Pm.Dev2 (CS Oracle Time Dev Action ActErr outCid processAction)
@@ -140,7 +143,8 @@ theorem C11_ids :
     (∀ (w : W) (p : PassIn), IdsFresh w → IdsFresh (daemonPass w p).1) ∧
     (∀ (w : W) (now con soe : Nat), Iso w → Iso (initialConnect w now con soe).1) ∧
     (∀ (w : W) (ps : List PassIn), Iso w → Iso (runPasses w ps)) :=
-  ⟨fun w hc hq hn => (iso_init w hc hq hn).1, cliPostPoll_ids, daemonPass_ids, initialConnect_iso, runPasses_iso⟩
+  -- the last part is a corollary of `C11_ids_runX` (passes that bring no regex answer)
+  ⟨fun w hc hq hn => (iso_init w hc hq hn).1, cliPostPoll_ids, daemonPass_ids, initialConnect_iso, Pm.Daemon.TwoRun.runPasses_iso_plain⟩
 
 /-- what `IdsFresh` says, spelled out -/
 theorem C11_ids_spelled (w : W) (h : IdsFresh w) :
@@ -520,7 +524,8 @@ theorem C11_backpressure (s fs : Nat) (w : W) (ps : List PassIn) (hi : Iso w)
     rw [this, List.map_id]
   have e2 : ((ps.map fun p => (p, stuckIn fs p)).take n).map (·.2) = (ps.take n).map (stuckIn fs) := by
     rw [← List.map_take, List.map_map]; rfl
-  obtain ⟨hr, hst⟩ := backpressure s fs w (ps.map fun p => (p, stuckIn fs p)) hi hs hf (stuckRun_of fs ps w hrun) n
+  -- `backpressure_plain`: `backpressure` derived from the `runX` version (`C11_backpressure_pairs_runX`)
+  obtain ⟨hr, hst⟩ := backpressure_plain s fs w (ps.map fun p => (p, stuckIn fs p)) hi hs hf (stuckRun_of fs ps w hrun) n
   rw [e1, e2] at hr hst
   obtain ⟨o1, o2, o3, o4, _, o6, o7⟩ := hr.others
   refine ⟨o1, o2, ⟨o3, o4, o7, o6⟩, fun p hp => ?_⟩
@@ -540,7 +545,7 @@ theorem C11_backpressure_pairs (s fs : Nat) (w : W) (pp : List (PassIn × PassIn
     ARel s fs (runPasses w ((pp.take n).map (·.1))) (runPasses w ((pp.take n).map (·.2))) ∧
     ∀ x, pp[n]? = some x →
       passSteps (runPasses w ((pp.take n).map (·.2))) x.2 = passSteps (runPasses w ((pp.take n).map (·.1))) x.1 :=
-  backpressure s fs w pp hi hs hf hrun n
+  backpressure_plain s fs w pp hi hs hf hrun n      -- corollary of `C11_backpressure_pairs_runX` (passes that bring no regex answer)
 
 open Pm.Daemon.TwoRun in
 /-- what `ARel` gives, spelled out -/
@@ -621,7 +626,7 @@ theorem C11_vanish (fs : Nat) (w w' : W) (pp : List (PassIn × PassIn)) (hr : BR
     BRel fs (runPasses w ((pp.take n).map (·.1))) (runPasses w' ((pp.take n).map (·.2))) ∧
     ∀ x, pp[n]? = some x →
       passSteps (runPasses w' ((pp.take n).map (·.2))) x.2 = passSteps (runPasses w ((pp.take n).map (·.1))) x.1 :=
-  vanish fs w w' pp hr hs n
+  vanish_plain fs w w' pp hr hs n      -- corollary of `C11_vanish_runX` (passes that bring no regex answer)
 
 open Pm.Daemon.TwoRun in
 /-- the two runs may start in the same world (the client on `fs`, if any, is `s`; the descriptor number `fs` has been handed out) -/
@@ -645,7 +650,7 @@ theorem C11_stuck_then_vanish (s fs : Nat) (w : W) (pp1 pp2 : List (PassIn × Pa
     (h1 : ∀ c ∈ w.clients, c.fd = fs → c.id = s) (h2 : fs < 1000 + w.nacc) (hs1 : StuckRun fs w pp1)
     (hs2 : GoneRun fs (runPasses w (pp1.map (·.1))) (runPasses w (pp1.map (·.2))) pp2) (n : Nat) :
     BRel fs (runPasses w ((pp1 ++ pp2.take n).map (·.1))) (runPasses w ((pp1 ++ pp2.take n).map (·.2))) :=
-  stuck_then_gone s fs w pp1 pp2 hi h1 h2 hs1 hs2 n
+  stuck_then_gone_plain s fs w pp1 pp2 hi h1 h2 hs1 hs2 n      -- corollary of the `runX` versions (passes that bring no regex answer)
 
 /- non-vacuity (`Pm/TwoRunEx.lean`).  World `Two.w3x` again; client 2 (descriptor 1001) is the one.  Pass V: the device answers client
    1's action; in the second run descriptor 1001 reports `POLLERR`.  Pass W: the device takes the bytes of client 2's action.
@@ -669,5 +674,181 @@ example :
     ids (runPasses Two.w3x ((Pm.Daemon.TwoRun.Ex.pp1 ++ [(Pm.Daemon.TwoRun.Ex.pZ, Pm.Daemon.TwoRun.Ex.pZ')]).map (·.1))) = [1, 2, 3] ∧
     ids (runPasses Two.w3x ((Pm.Daemon.TwoRun.Ex.pp1 ++ [(Pm.Daemon.TwoRun.Ex.pZ, Pm.Daemon.TwoRun.Ex.pZ')]).map (·.2))) = [1, 3] := by
   decide +kernel
+
+/-! ## 9. The run theorems of §2, §7, §8 with regex answers arbitrary in every pass (`runX`)
+
+The run theorems above quantify over `runPasses w ps`, the plain fold of `daemonPass`.  In such a run only the *first* pass can
+see an answer of the regex engine (the answers for the coming pass live in `W.pendingX`; `daemonPass` consumes and clears them;
+the driver refills them between passes): from the second pass on every `expect` sees "no match", so no query is ever answered
+on/off and no scripted command succeeds after pass 1 — the two-run theorems compared degenerate runs only.  Here they are stated
+over `runX w qs` (`Pm/RunX.lean`, the definition shared with C02, C03, C05, C06, C15): a pass `q : PassX` is the kernel's answers
+`q.p` and the regex answers `q.rx` recorded for that pass; `feed w rx` appends `rx` to `pendingX` (what the driver does between
+passes); `stepX w q = (daemonPass (feed w q.rx) q.p).1`.  **The regex answers are arbitrary in every pass, and the same in both
+runs** (`q'.rx = q.rx`: the two runs differ in what the client on `fs` does, not in what the devices say).
+
+Vocabulary (`Pm/RunXTwo.lean`; examples `Pm/RunXTwoEx.lean`): `AlongX H w w' pp` — the per-pass hypothesis `H` holds for every pair
+of passes of `pp`, on the worlds the two runs have reached (`C11_AlongX_spelled`); `StuckX fs`, `GoneX fs` — `StuckPass`, `GonePass`
+together with "the same regex answers" (`C11_StuckX_spelled`); `stuckInX fs q` — the pass `q` with the writable bit of `fs`
+cleared, the regex answers unchanged; `ReaderRunX`, `FaithfulX`, `replyPassRunX` — `ReaderRun`, `Faithful`, `replyPass` for such
+runs.  `passSteps (feed w q.rx) q.p` is what every device does in the pass `q` from world `w` (the device phase starts from the
+world with the answers handed over).  The `runPasses` statements are the special case of passes that bring no answer
+(`C11_runX_plain`). -/
+
+open Pm.Daemon.TwoRun in
+/-- what the vocabulary is -/
+theorem C11_AlongX_spelled (H : W → W → PassX → PassX → Prop) (w w' : W) (x : PassX × PassX) (r : List (PassX × PassX)) :
+    (AlongX H w w' (x :: r) ↔ H w w' x.1 x.2 ∧ AlongX H (stepX w x.1) (stepX w' x.2) r) ∧ (AlongX H w w' [] ↔ True) ∧
+    stepX w x.1 = (daemonPass (feed w x.1.rx) x.1.p).1 ∧ feed w x.1.rx = { w with pendingX := w.pendingX ++ x.1.rx } :=
+  ⟨Iff.rfl, Iff.rfl, rfl, rfl⟩
+
+open Pm.Daemon.TwoRun in
+/-- the per-pass hypotheses, spelled out: the same regex answers in both runs, and `StuckPass` (`C11_StuckPass_spelled`) resp.
+    `GonePass` for the kernel's answers — the latter on the worlds with the answers handed over, because its clauses "no modelled
+    `assert` fires" speak of the device phases, which consume the answers -/
+theorem C11_StuckX_spelled (fs : Nat) (w w' : W) (q q' : PassX) :
+    (StuckX fs w w' q q' ↔ q'.rx = q.rx ∧ StuckPass fs w q.p q'.p) ∧
+    (GoneX fs w w' q q' ↔ q'.rx = q.rx ∧ GonePass fs (feed w q.rx) (feed w' q'.rx) q.p q'.p) ∧
+    stuckInX fs q = ⟨stuckIn fs q.p, q.rx⟩ :=
+  ⟨Iff.rfl, Iff.rfl, rfl⟩
+
+open Pm.Daemon.TwoRun in
+/-- **The `runPasses` statements are the special case of passes that bring no regex answer**: such a run is a run of
+    `runPasses`, and the hypotheses `StuckRun`, `GoneRun`, `ReaderRun` of §7, §8 are `AlongX (StuckX fs)`, `AlongX (GoneX fs)`,
+    `ReaderRunX` of the answer-less passes (so `C11_backpressure_pairs`, `C11_vanish`, `C11_ids` follow from the theorems of this
+    section: `backpressure_plain`, `vanish_plain`, `runPasses_iso_plain` in `Pm/RunXTwo.lean`) -/
+theorem C11_runX_plain (fs : Nat) (w w' : W) (ps : List PassIn) (pp : List (PassIn × PassIn)) :
+    runX w (ps.map fun p => ⟨p, []⟩) = runPasses w ps ∧
+    (StuckRun fs w pp → AlongX (StuckX fs) w w' (pp.map fun x => (⟨x.1, []⟩, ⟨x.2, []⟩))) ∧
+    (GoneRun fs w w' pp → AlongX (GoneX fs) w w' (pp.map fun x => (⟨x.1, []⟩, ⟨x.2, []⟩))) ∧
+    (ReaderRun fs w ps → ReaderRunX fs w (ps.map fun p => ⟨p, []⟩)) :=
+  ⟨runX_runPasses w ps, stuckRunX_plain fs pp w w', goneRunX_plain fs pp w w', readerRunX_plain fs ps w⟩
+
+/-- **The id and arglist disciplines over a run, regex answers arbitrary in every pass** (`C11_ids`, last part, for `runX`):
+    handing the recorded answers to the daemon touches `pendingX` only, which neither discipline mentions. -/
+theorem C11_ids_runX :
+    (∀ (w : W) (rx : List Pm.Dev2.RxCall), Iso w → Iso (feed w rx)) ∧
+    (∀ (w : W) (qs : List PassX), IdsFresh w → IdsFresh (runX w qs)) ∧
+    (∀ (w : W) (qs : List PassX), Iso w → Iso (runX w qs)) :=
+  ⟨fun _ rx h => Pm.Daemon.TwoRun.feed_iso rx h, Pm.Daemon.TwoRun.runX_ids, Pm.Daemon.TwoRun.runX_iso⟩
+
+example : Iso (runX Two.w3 Pm.Daemon.TwoRun.ExX.qs) := C11_ids_runX.2.2 _ _ Two.iso3
+
+open Pm.Daemon.TwoRun in
+/-- **Back-pressure, two runs — regex answers arbitrary in every pass, the same in both runs.**  The statement of
+    `C11_backpressure` for runs in which every pass brings its own regex answers.  Start two runs in the same reachable world
+    `w`; client `s` is the one client on descriptor `fs`.  First run: passes `qs`, in which `s` behaves (`ReaderRunX`).  Second
+    run: the same passes — the same kernel answers except that `fs` is never again reported writable, and the same regex
+    answers (`stuckInX fs`).  Then after every number `n` of passes: (1) every other client has the same record in both runs;
+    (2) the bytes written to every other descriptor in the last pass are the same; (3) every device is in the same state, the
+    arglist store is the same, the same clients are connected, neither or both processes have left; (4) in the next pass every
+    device does the same in both runs (`passSteps`), in particular (5) the callbacks carrying `s`'s own id are the same.
+    (`_hmodel : FaithfulX` — the explicit exclusions (a) F23 and (b) the 1 MiB cap of `C11_backpressure`; not used by the proof.) -/
+theorem C11_backpressure_runX (s fs : Nat) (w : W) (qs : List PassX) (hi : Iso w)
+    (hs : ∀ c ∈ w.clients, c.fd = fs → c.id = s) (hf : fs < 1000 + w.nacc) (hrun : ReaderRunX fs w qs)
+    (_hmodel : FaithfulX s fs w (qs.map (stuckInX fs))) (n : Nat) :
+    (∀ g, g ≠ s → cliRec (runX w ((qs.take n).map (stuckInX fs))) g = cliRec (runX w (qs.take n)) g) ∧
+    (∀ fd, fd ≠ fs → ClientPf.written (runX w ((qs.take n).map (stuckInX fs))).sys fd = ClientPf.written (runX w (qs.take n)).sys fd) ∧
+    ((runX w ((qs.take n).map (stuckInX fs))).devs = (runX w (qs.take n)).devs ∧
+     (runX w ((qs.take n).map (stuckInX fs))).store = (runX w (qs.take n)).store ∧
+     ids (runX w ((qs.take n).map (stuckInX fs))) = ids (runX w (qs.take n)) ∧
+     (runX w ((qs.take n).map (stuckInX fs))).exited = (runX w (qs.take n)).exited) ∧
+    (∀ q, qs[n]? = some q →
+      passSteps (feed (runX w ((qs.take n).map (stuckInX fs))) q.rx) (stuckIn fs q.p) = passSteps (feed (runX w (qs.take n)) q.rx) q.p ∧
+      callbacksFor s (passSteps (feed (runX w ((qs.take n).map (stuckInX fs))) q.rx) (stuckIn fs q.p)) =
+        callbacksFor s (passSteps (feed (runX w (qs.take n)) q.rx) q.p)) :=
+  backpressure_stuckInX s fs w qs hi hs hf hrun n
+
+open Pm.Daemon.TwoRun in
+/-- The same for two arbitrary lists of passes given pass by pass as pairs `(q, q')` with `AlongX (StuckX fs)`: the same regex
+    answers, and `StuckPass` for the kernel's answers (`C11_backpressure_pairs` for `runX`). -/
+theorem C11_backpressure_pairs_runX (s fs : Nat) (w : W) (pp : List (PassX × PassX)) (hi : Iso w)
+    (hs : ∀ c ∈ w.clients, c.fd = fs → c.id = s) (hf : fs < 1000 + w.nacc) (hrun : AlongX (StuckX fs) w w pp) (n : Nat) :
+    ARel s fs (runX w ((pp.take n).map (·.1))) (runX w ((pp.take n).map (·.2))) ∧
+    ∀ x, pp[n]? = some x →
+      passSteps (feed (runX w ((pp.take n).map (·.2))) x.2.rx) x.2.p = passSteps (feed (runX w ((pp.take n).map (·.1))) x.1.rx) x.1.p :=
+  backpressureX s fs w pp hi hs hf hrun n
+
+open Pm.Daemon.TwoRun in
+/-- **"… does not delay …", regex answers arbitrary in every pass** (`C11_backpressure_timing` for `runX`): the index of the
+    first pass in which client `g`'s command in progress is completed is the same in both runs for every client `g ≠ s`. -/
+theorem C11_backpressure_timing_runX (s fs : Nat) (w : W) (qs : List PassX) (hi : Iso w)
+    (hs : ∀ c ∈ w.clients, c.fd = fs → c.id = s) (hf : fs < 1000 + w.nacc) (hrun : ReaderRunX fs w qs)
+    (hmodel : FaithfulX s fs w (qs.map (stuckInX fs))) (g : Nat) (hg : g ≠ s) :
+    replyPassRunX w (qs.map (stuckInX fs)) g = replyPassRunX w qs g := by
+  apply replyPassRunX_congr w w qs (qs.map (stuckInX fs)) g (by simp)
+  intro n
+  rw [← List.map_take]
+  exact (C11_backpressure_runX s fs w qs hi hs hf hrun hmodel n).1 g hg
+
+/- non-vacuity (`Pm/RunXTwoEx.lean`), with the regex answers arriving in the SECOND pass of the run.  World `Two.w3`: clients 1
+   (descriptor 1000) and 2 (descriptor 1001) both have `status a1` in flight; no regex answer is pending.  Pass 0: nothing
+   happens.  Pass 1 (`⟨pA, xs4⟩`): the device answers client 1's action; the answers for `expect` and `setplugstate` are fed
+   before this pass.  Pass 2: a third client connects, client 1 asks again, client 2 sends `help`.  In the second run descriptor
+   1001 is never writable.  All hypotheses hold; client 2's buffer holds 25 bytes in the first run and 42 in the second; the
+   others are the same; client 1's command completes in pass 1 in both runs — and in no pass at all without the answers, which
+   is all a run of `runPasses` from `Two.w3` can have. -/
+example : Iso Two.w3 ∧ (∀ c ∈ Two.w3.clients, c.fd = 1001 → c.id = 2) ∧ 1001 < 1000 + Two.w3.nacc ∧ Two.w3.pendingX = [] ∧
+    Pm.Daemon.TwoRun.ExX.qs = [⟨Pm.Daemon.TwoRun.ExX.p0, []⟩, ⟨Pm.Daemon.TwoRun.Ex.pA, Two.xs4⟩, ⟨Pm.Daemon.TwoRun.Ex.pB, []⟩] ∧
+    Pm.Daemon.TwoRun.ReaderRunX 1001 Two.w3 Pm.Daemon.TwoRun.ExX.qs ∧
+    Pm.Daemon.TwoRun.FaithfulX 2 1001 Two.w3 (Pm.Daemon.TwoRun.ExX.qs.map (Pm.Daemon.TwoRun.stuckInX 1001)) :=
+  ⟨Two.iso3, Pm.Daemon.TwoRun.ExX.onlyS, Pm.Daemon.TwoRun.ExX.fresh, Pm.Daemon.TwoRun.ExX.noPending, rfl,
+   Pm.Daemon.TwoRun.ExX.readerRun, Pm.Daemon.TwoRun.ExX.faithful⟩
+example :
+    (runX Two.w3 Pm.Daemon.TwoRun.ExX.qs).clients.map (fun c => (c.id, c.fd, c.toBuf.length, c.cmd.isSome)) =
+      [(1, 1000, 0, true), (2, 1001, 25, true), (3, 1002, 17, false)] ∧
+    (runX Two.w3 Pm.Daemon.TwoRun.ExX.qs').clients.map (fun c => (c.id, c.fd, c.toBuf.length, c.cmd.isSome)) =
+      [(1, 1000, 0, true), (2, 1001, 42, true), (3, 1002, 17, false)] ∧
+    (runX Two.w3 Pm.Daemon.TwoRun.ExX.qs).devs.map (fun nd => nd.2.acts.map fun a => (a.clientId, a.arglist)) = [[(2, 2), (1, 3)]] ∧
+    Pm.Daemon.TwoRun.replyPassRunX Two.w3 Pm.Daemon.TwoRun.ExX.qs 1 = some 1 ∧
+    Pm.Daemon.TwoRun.replyPassRunX Two.w3 Pm.Daemon.TwoRun.ExX.qs' 1 = some 1 := Pm.Daemon.TwoRun.ExX.outcome
+example : Pm.Daemon.TwoRun.replyPassRunX Two.w3
+    [⟨Pm.Daemon.TwoRun.ExX.p0, []⟩, ⟨Pm.Daemon.TwoRun.Ex.pA, []⟩, ⟨Pm.Daemon.TwoRun.Ex.pB, []⟩] 1 = none :=
+  Pm.Daemon.TwoRun.ExX.without_answer
+
+open Pm.Daemon.TwoRun in
+/-- **Disconnection at any moment, two runs — regex answers arbitrary in every pass, the same in both runs** (`C11_vanish` for
+    `runX`).  Two runs from worlds related by `BRel`; in the first the client on `fs` stays connected and sends nothing more, in
+    the second its descriptor reports an error in some pass, or never becomes writable, or anything else that is not input
+    (`AlongX (GoneX fs)`).  Then after every number `n` of passes the relation still holds, and in the next pass every device
+    does exactly the same in both runs. -/
+theorem C11_vanish_runX (fs : Nat) (w w' : W) (pp : List (PassX × PassX)) (hr : BRel fs w w') (hs : AlongX (GoneX fs) w w' pp) (n : Nat) :
+    BRel fs (runX w ((pp.take n).map (·.1))) (runX w' ((pp.take n).map (·.2))) ∧
+    ∀ x, pp[n]? = some x →
+      passSteps (feed (runX w' ((pp.take n).map (·.2))) x.2.rx) x.2.p = passSteps (feed (runX w ((pp.take n).map (·.1))) x.1.rx) x.1.p :=
+  vanishX fs w w' pp hr hs n
+
+open Pm.Daemon.TwoRun in
+/-- **First it stops reading, then it vanishes — regex answers arbitrary in every pass, the same in both runs**
+    (`C11_stuck_then_vanish` for `runX`). -/
+theorem C11_stuck_then_vanish_runX (s fs : Nat) (w : W) (pp1 pp2 : List (PassX × PassX)) (hi : Iso w)
+    (h1 : ∀ c ∈ w.clients, c.fd = fs → c.id = s) (h2 : fs < 1000 + w.nacc) (hs1 : AlongX (StuckX fs) w w pp1)
+    (hs2 : AlongX (GoneX fs) (runX w (pp1.map (·.1))) (runX w (pp1.map (·.2))) pp2) (n : Nat) :
+    BRel fs (runX w ((pp1 ++ pp2.take n).map (·.1))) (runX w ((pp1 ++ pp2.take n).map (·.2))) :=
+  stuck_then_goneX s fs w pp1 pp2 hi h1 h2 hs1 hs2 n
+
+/- non-vacuity (`Pm/RunXTwoEx.lean`).  World `Two.w3` (no answer pending); client 2 (descriptor 1001) is the one.  Pass 0: nothing.
+   Pass 1: the device answers client 1's action — the regex answers are fed before this pass, to both runs —; in the second run
+   descriptor 1001 reports `POLLERR`.  Pass 2: the device takes the bytes of client 2's action.  After the three passes client 2
+   is connected in the first run and gone in the second; client 1 has been answered in both (its command is cleared: the `expect`
+   matched in the second pass of the run); the device, whose queue still holds client 2's action, is the same. -/
+example : Pm.Daemon.TwoRun.BRel 1001 Two.w3 Two.w3 ∧
+    AlongX (Pm.Daemon.TwoRun.GoneX 1001) Two.w3 Two.w3 Pm.Daemon.TwoRun.ExX.ppV :=
+  ⟨Pm.Daemon.TwoRun.ExX.brel0, Pm.Daemon.TwoRun.ExX.goneRun⟩
+example :
+    ids (runX Two.w3 (Pm.Daemon.TwoRun.ExX.ppV.map (·.1))) = [1, 2] ∧ ids (runX Two.w3 (Pm.Daemon.TwoRun.ExX.ppV.map (·.2))) = [1] ∧
+    (runX Two.w3 (Pm.Daemon.TwoRun.ExX.ppV.map (·.1))).devs.map (fun nd => (nd.2.acts.map fun a => (a.clientId, a.arglist), nd.2.toBuf)) = [([(2, 2)], [])] ∧
+    (runX Two.w3 (Pm.Daemon.TwoRun.ExX.ppV.map (·.2))).devs.map (fun nd => (nd.2.acts.map fun a => (a.clientId, a.arglist), nd.2.toBuf)) = [([(2, 2)], [])] ∧
+    (cliRec (runX Two.w3 (Pm.Daemon.TwoRun.ExX.ppV.map (·.1))) 1).map (·.cmd.isNone) = some true ∧
+    (cliRec (runX Two.w3 (Pm.Daemon.TwoRun.ExX.ppV.map (·.2))) 1).map (·.cmd.isNone) = some true := Pm.Daemon.TwoRun.ExX.outcomeV
+
+/- non-vacuity of `C11_stuck_then_vanish_runX`: the three stuck passes above, then a pass in which descriptor 1001 reports `POLLERR`
+   in the second run only; afterwards client 2 is gone in the second run, clients 1 and 3 are the same -/
+example : AlongX (Pm.Daemon.TwoRun.StuckX 1001) Two.w3 Two.w3 Pm.Daemon.TwoRun.ExX.pp1 ∧
+    AlongX (Pm.Daemon.TwoRun.GoneX 1001) (runX Two.w3 (Pm.Daemon.TwoRun.ExX.pp1.map (·.1))) (runX Two.w3 (Pm.Daemon.TwoRun.ExX.pp1.map (·.2)))
+      Pm.Daemon.TwoRun.ExX.ppZ :=
+  ⟨Pm.Daemon.TwoRun.stuckRunX_of 1001 _ _ _ Pm.Daemon.TwoRun.ExX.readerRun, Pm.Daemon.TwoRun.ExX.goneAfterStuck⟩
+example :
+    ids (runX Two.w3 ((Pm.Daemon.TwoRun.ExX.pp1 ++ Pm.Daemon.TwoRun.ExX.ppZ).map (·.1))) = [1, 2, 3] ∧
+    ids (runX Two.w3 ((Pm.Daemon.TwoRun.ExX.pp1 ++ Pm.Daemon.TwoRun.ExX.ppZ).map (·.2))) = [1, 3] := Pm.Daemon.TwoRun.ExX.outcomeZ
 
 end Pm.Props.C11
